@@ -43,7 +43,7 @@ BUDGET_S = {"quick": 600, "thorough": 3000}
 
 NS = [1, 2, 3, 7, 20]
 NB = [0, 1, 3, 10]
-FOUTS = ["scalar", "vector", "tuple"]
+FOUTS = ["scalar", "vector", "tuple", "ident"]     # ident: the integrand returns the sample tensor ITSELF
 KINDS = ["explicit", "nn", "edit", "absent"]
 ORDERS = [(1, "lin"), (2, "lin"), (2, "sq")]
 
@@ -156,6 +156,8 @@ def _fl(x):
 
 def f_math(fout, x, a, b, linear=False):
     x = _fl(x)
+    if fout == "ident":
+        return x        # the very tensor object it was given (float states): f(x) = x, E[f] = mean of the samples
     xx = (x * x).sum()
     if linear:      # linear in (a, b), no cross term: d f / d theta does not depend on theta
         if fout == "scalar":
@@ -309,7 +311,14 @@ def run_case(cfg):
     obs = {}
     nexec = 0
     x0 = x0_of(cfg)
-    cot = COT[fout]
+    if fout == "ident":
+        if not x0.is_floating_point():
+            return {"viol": [], "obs": {"skipped": "identity integrand on an integer state"}, "status": "ok", "n": 0,
+                    "trivial": True}
+        cot = [torch.tensor(0.8, dtype=torch.float64)] if x0.dim() == 0 else \
+            [torch.tensor([0.5, -0.6], dtype=torch.float64)[:x0.numel()].reshape(x0.shape)]
+    else:
+        cot = COT[fout]
 
     # ---- tensors
     def mk(val, kind):
@@ -515,8 +524,12 @@ def run_case(cfg):
     # ---- (3) constant integrand
     cval = torch.tensor([2.5, -1.0], dtype=torch.float64)
     clear()
-    oc = run(lambda x: cval.clone(), ())
+    ckeep = cval.clone()
+    oc = run(lambda x: cval, ())        # returns a tensor the caller holds: it must come back untouched
     nexec += 1
+    if not torch.equal(cval, ckeep):
+        viol.append(V("tensor-returned-by-the-integrand-modified-in-place", {"before": [2.5, -1.0], "after": rnd(cval, 12)}))
+        cval = ckeep.clone()
     if oc.exc is not None:
         viol.append(V("exception:" + _sig(oc.exc), {"phase": "constant"}, phase="constant"))
     else:
@@ -633,6 +646,8 @@ def run_case(cfg):
         dF = 0.0
         if fk != "absent":
             for comp in fl:
+                if not comp.requires_grad:
+                    continue
                 gs = torch.autograd.grad(comp, [fa, fb], retain_graph=True, allow_unused=True)
                 dF += sum(float(g.abs().sum()) for g in gs if g is not None)
         S = 0.0
